@@ -196,7 +196,7 @@ impl C03Deep {
         // half of the random scenarios use the generic tail: any single stream fault at a position
         // biased to the structural boundaries of the (closed) deep document
         let (tail, fault) = if (run as usize) >= fixed.len() && !shape.ends_with("-open") && rng.chance(1, 2) {
-            let probe = DeepSc { shape: shape.clone(), depth, stack_kib, tail: "none".into(), tail_at: 0, via: via.clone(), opts, fault: None };
+            let probe = DeepSc { shape: shape.clone(), depth, stack_kib, tail: "none".into(), tail_at: 0, via: via.clone(), opts, fault: None, outer: None };
             let len = probe.text().0.chars().count() as u64;
             let open_len = len.saturating_sub(depth + 1); // closers are one character each, the leaf is one character
             let pos = match rng.below(12) {
@@ -208,7 +208,19 @@ impl C03Deep {
             ("generic".to_string(), Some((kind.to_string(), pos, c)))
         } else { (tail, None) };
         let via = if fault.as_ref().map(|f| f.0 == "fail").unwrap_or(false) && via == "str" { "iter".to_string() } else { via };
-        DeepSc { shape, depth, stack_kib, tail, tail_at, via, opts, fault }
+        // a third of the random scenarios: the deep closed value is a member of a small outer
+        // document, and a single fault strikes somewhere *after* it (or, rarely, anywhere)
+        if (run as usize) >= fixed.len() && rng.chance(1, 3) {
+            let outer = gen_outer(&mut rng);
+            let suffix_len = outer.chars().count() - outer.chars().position(|c| c == '\u{1}').unwrap_or(0) - 1;
+            let from_end = if rng.chance(5, 6) { rng.range(0, suffix_len as u64) } else { rng.range(0, suffix_len as u64 + depth) };
+            let kind = *rng.pick(&["fail", "end", "flip", "insert", "drop", "insert", "flip"]);
+            let c = *rng.pick(&[']', '}', ',', ':', '[', '{', '"', 'x', ' ', '1', '\u{0}']);
+            let shape = rng.pick(&["array-closed", "object-closed", "mixed-closed", "wide-closed"]).to_string();
+            let via = if kind == "fail" && via == "str" { "iter".to_string() } else { via };
+            return DeepSc { shape, depth, stack_kib, tail: "generic-from-end".into(), tail_at: 0, via, opts, fault: Some((kind.to_string(), from_end, c)), outer: Some(outer) };
+        }
+        DeepSc { shape, depth, stack_kib, tail, tail_at, via, opts, fault, outer: None }
     }
 }
 
@@ -247,4 +259,28 @@ impl Phase for C03Deep {
     }
     fn sample_runs(&self) -> Vec<u64> { (0..self.runs.min(6)).collect() }
     fn chunk(&self) -> u64 { 1 }
+}
+
+/// A small outer document with exactly one placeholder (U+0001) in a value position.
+pub fn gen_outer(rng: &mut Rng) -> String {
+    fn small(rng: &mut Rng) -> &'static str {
+        *rng.pick(&["1", "null", "\"s\"", "[]", "{}", "[1,2]", "{\"c\":1}", "[[1],{\"d\":[2]}]", "true", "-0.5e1"])
+    }
+    fn node(rng: &mut Rng, depth: u64, out: &mut String) {
+        if depth == 0 { out.push('\u{1}'); return; }
+        let n = rng.urange(1, 4);
+        let hole = rng.usize_below(n);
+        let obj = rng.chance(1, 2);
+        out.push(if obj { '{' } else { '[' });
+        for i in 0..n {
+            if i > 0 { out.push(','); if rng.chance(1, 4) { out.push(' '); } }
+            if obj { out.push('"'); out.push((b'a' + i as u8) as char); out.push_str("\":"); }
+            if i == hole { node(rng, depth - 1, out) } else { out.push_str(small(rng)) }
+        }
+        out.push(if obj { '}' } else { ']' });
+    }
+    let mut out = String::new();
+    let depth = rng.range(1, 3);
+    node(rng, depth, &mut out);
+    out
 }
